@@ -1,7 +1,7 @@
-(* HillClimb.v - C05 at full strength on binary64: with kt_start = +0 the optimiser model
-   is a hill climb, for every configuration whose cooling ratio is a number of magnitude <= 2^1000 (or is absent),
-   every finishing temperature, every step counts, every oracle and every random stream with
-   thresholds >= 0.  Premise about libm: exp(-inf) = 0. *)
+(* HillClimb.v - C05 at full strength on binary64: with kt_start = 0 (of either sign) the optimiser
+   model is a hill climb, for EVERY configuration: every cooling ratio (finite, infinite, not a
+   number, absent), every finishing temperature, every step counts, every oracle and every random
+   stream with thresholds >= 0.  Premise about libm: exp(-inf) = 0. *)
 From Coq Require Import ZArith NArith List Bool Floats.
 From PV Require Import Num model.Optimiser model.OptSpec proofs.OptStruct proofs.OptLoop
   proofs.FloatFacts proofs.FloatZero.
@@ -13,20 +13,22 @@ Section HillF.
   Hypothesis fexp_neg_inf : fexp neg_infinity = 0%float.
 
   Definition thr_ok (d : draw NumF) : Prop := fleb 0%float (d_thr NumF d) = true.
-  Definition ratio_ok (b : builder NumF) : Prop :=
-    match b_kt_ratio NumF b with
-    | Some r => fleb (PrimFloat.opp big) r = true /\ fleb r big = true    (* |r| <= 2^1000 *)
-    | None => True
-    end.
+  (* the starting temperature is zero: +0 or -0 *)
+  Definition zero_start (b : builder NumF) : Prop := feqb (b_kt_start NumF b) 0%float = true.
+
+  Lemma build_zero_start (b : builder NumF) :
+    zero_start b -> kt_start NumF (build NumF fpow b) = 0%float.
+  Proof. intros H. unfold build. cbn [kt_start neqb NumF]. unfold zero_start in H.
+         change (n0 (NN:=NumF)) with 0%float. now rewrite H. Qed.
 
   Lemma build_zero_factor (b : builder NumF) :
-    b_kt_start NumF b = 0%float -> ratio_ok b ->
+    zero_start b ->
     PrimFloat.mul 0%float (factor NumF (build NumF fpow b)) = 0%float.
   Proof.
-    intros Hs Hr.
-    rewrite (C18_factor_at_zero_start NumF fpow b) by (rewrite Hs; reflexivity).
-    unfold ratio_ok in Hr. destruct (b_kt_ratio NumF b) as [r|].
-    - destruct Hr. now apply F_zero_mul_factor.
+    intros Hs.
+    rewrite (C18_factor_at_zero_start NumF fpow b) by (now apply F_zero_not_positive).
+    destruct (b_kt_ratio NumF b) as [r|].
+    - apply F_zero_mul_any_factor.
     - reflexivity.
   Qed.
 
@@ -34,7 +36,7 @@ Section HillF.
      input score *)
   Theorem C05_zero_temperature_is_hill_climb :
     forall (b : builder NumF) ps hs (s0 : F) (draws1 draws2 : list (draw NumF)),
-    b_kt_start NumF b = 0%float -> ratio_ok b -> fnan s0 = false ->
+    zero_start b -> fnan s0 = false ->
     Forall thr_ok (draws1 ++ draws2) ->
     let c := build NumF fpow b in
     let mid := run NumF fexp score c (init NumF c ps hs s0) draws1 in
@@ -42,13 +44,13 @@ Section HillF.
     fleb s0 (score_cur NumF mid) = true
     /\ fleb (score_cur NumF mid) (score_cur NumF fin) = true.
   Proof.
-    intros b ps hs s0 d1 d2 Hs Hr Hn Hthr c mid fin.
+    intros b ps hs s0 d1 d2 Hs Hn Hthr c mid fin.
     apply (C05_hill_climb NumF fexp score 0%float (fun t => fleb 0%float t = true) c).
     - intros thr new old Ht Ho Ha. now apply (F_accept_zero_not_worse fexp fexp_neg_inf thr).
     - now apply build_zero_factor.
     - intros x Hx. now apply leb_refl.
     - apply F_leb_trans.
-    - exact Hs.
+    - now apply build_zero_start.
     - exact Hn.
     - exact Hthr.
   Qed.
@@ -56,16 +58,23 @@ Section HillF.
   (* the temperature is +0 at every point of such a run *)
   Theorem C05_zero_temperature_stays_zero :
     forall (b : builder NumF) ps hs (s0 : F) (draws : list (draw NumF)),
-    b_kt_start NumF b = 0%float -> ratio_ok b ->
+    zero_start b ->
     let c := build NumF fpow b in
     kt NumF (run NumF fexp score c (init NumF c ps hs s0) draws) = 0%float.
   Proof.
-    intros b ps hs s0 draws Hs Hr c.
+    intros b ps hs s0 draws Hs c.
     pose proof (C18_kt_schedule NumF fexp score c ps hs s0 draws) as H.
     unfold kt_inv in H. rewrite H.
-    change (kt_start NumF c) with (b_kt_start NumF b). rewrite Hs.
-    generalize (N.to_nat (loops_done NumF (run NumF fexp score c (init NumF c ps hs s0) draws))).
+    unfold c. rewrite (build_zero_start b Hs).
+    generalize (N.to_nat (loops_done NumF (run NumF fexp score (build NumF fpow b)
+                                             (init NumF (build NumF fpow b) ps hs s0) draws))).
     intros k. induction k as [|k IH]; [reflexivity|].
     cbn [cooled]. rewrite IH. now apply build_zero_factor.
   Qed.
+
+  (* non-vacuity: a start of negative zero with an infinite cooling ratio is such a configuration *)
+  Example negative_zero_infinite_ratio_is_zero_start :
+    zero_start (mkBuilder (NN:=NumF) 100 (-0)%float (Some 0x1p-10%float) (Some neg_infinity)
+                          0x1p-7%float 10 None).
+  Proof. reflexivity. Qed.
 End HillF.
